@@ -195,6 +195,16 @@ def shelfCoeffs (nz n : Nat) (s0 : α) (sRel : Option α) (normals : List α) : 
     | none => List.replicate n s0
   else List.replicate n zero
 
+/-- the per-vial pre-exponential factors of a run: `kb = 10 ** (-(a + xi_v * c))` elementwise on
+the vial-dependent standard normals `xi_v` -/
+def Params.withXi (p : Params α) (a c : α) (xi : List α) : Params α :=
+  { p with kb := xi.map (kbOf a c) }
+
+/-- the shelf coefficients of a run, derived from `s0`, `s_sigma_rel` and the drawn normals -/
+def Params.withShelf (p : Params α) (nz n : Nat) (s0 : α) (sRel : Option α) (normals : List α) :
+    Params α :=
+  { p with kShelf := shelfCoeffs nz n s0 sRel normals }
+
 /-! ### heat flow -/
 
 /-- off-diagonal entry of `H_int = interactionMatrix * k_int * A` -/
